@@ -6,7 +6,7 @@ CONSTANTS
   Speeds <- TB_Speeds
   Gates <- TB_Gates
   MaxLinks = 3
-  MaxR = 2
+  MaxR = 1
 INVARIANT Safe
 INVARIANT Exact
 INVARIANT Canonical
